@@ -124,7 +124,7 @@ impl<'a, T: Clone> TryFrom<Response<'a, T>> for Success<'a, T> {
 }
 
 /// Return value for subscriptions.
-#[derive(Serialize, Deserialize, Debug)]
+#[derive(Serialize, Debug)]
 pub struct SubscriptionPayload<'a, T> {
 	/// Subscription ID
 	#[serde(borrow)]
@@ -133,19 +133,91 @@ pub struct SubscriptionPayload<'a, T> {
 	pub result: T,
 }
 
+impl<'de: 'a, 'a, T: Deserialize<'de>> Deserialize<'de> for SubscriptionPayload<'a, T> {
+	fn deserialize<D: Deserializer<'de>>(deserializer: D) -> Result<Self, D::Error> {
+		let visitor = SubscriptionPayloadVisitor { value: SubscriptionPayloadField::Result, name: "result", marker: PhantomData };
+		let (subscription, result) = deserializer.deserialize_map(visitor)?;
+		Ok(Self { subscription, result })
+	}
+}
+
 /// Subscription response object, embedding a [`SubscriptionPayload`] in the `params` member along with `result` field.
 pub type SubscriptionResponse<'a, T> = Notification<'a, SubscriptionPayload<'a, T>>;
 /// Subscription response object, embedding a [`SubscriptionPayload`] in the `params` member along with `error` field.
 pub type SubscriptionError<'a, T> = Notification<'a, SubscriptionPayloadError<'a, T>>;
 
 /// Error value for subscriptions.
-#[derive(Serialize, Deserialize, Debug)]
+#[derive(Serialize, Debug)]
 pub struct SubscriptionPayloadError<'a, T> {
 	/// Subscription ID
 	#[serde(borrow)]
 	pub subscription: SubscriptionId<'a>,
 	/// Result.
 	pub error: T,
+}
+
+impl<'de: 'a, 'a, T: Deserialize<'de>> Deserialize<'de> for SubscriptionPayloadError<'a, T> {
+	fn deserialize<D: Deserializer<'de>>(deserializer: D) -> Result<Self, D::Error> {
+		let visitor = SubscriptionPayloadVisitor { value: SubscriptionPayloadField::Error, name: "error", marker: PhantomData };
+		let (subscription, error) = deserializer.deserialize_map(visitor)?;
+		Ok(Self { subscription, error })
+	}
+}
+
+#[derive(Deserialize, PartialEq)]
+#[serde(field_identifier, rename_all = "lowercase")]
+enum SubscriptionPayloadField {
+	Subscription,
+	Result,
+	Error,
+	#[serde(other)]
+	Ignore,
+}
+
+/// Visitor for [`SubscriptionPayload`] and [`SubscriptionPayloadError`].
+///
+/// Only the by-name form `{"subscription": .., "result": ..}` is a subscription payload; the by-position form
+/// `[subscription, result]`, which a derived implementation accepts as well, is the `params` of a plain notification.
+struct SubscriptionPayloadVisitor<'a, T> {
+	value: SubscriptionPayloadField,
+	name: &'static str,
+	marker: PhantomData<(SubscriptionId<'a>, T)>,
+}
+
+impl<'de: 'a, 'a, T: Deserialize<'de>> serde::de::Visitor<'de> for SubscriptionPayloadVisitor<'a, T> {
+	type Value = (SubscriptionId<'a>, T);
+
+	fn expecting(&self, formatter: &mut fmt::Formatter) -> fmt::Result {
+		write!(formatter, "an object with the fields `subscription` and `{}`", self.name)
+	}
+
+	fn visit_map<V>(self, mut map: V) -> Result<Self::Value, V::Error>
+	where
+		V: serde::de::MapAccess<'de>,
+	{
+		let mut subscription = None;
+		let mut value = None;
+
+		while let Some(key) = map.next_key::<SubscriptionPayloadField>()? {
+			if key == SubscriptionPayloadField::Subscription {
+				if subscription.is_some() {
+					return Err(serde::de::Error::duplicate_field("subscription"));
+				}
+				subscription = Some(map.next_value()?);
+			} else if key == self.value {
+				if value.is_some() {
+					return Err(serde::de::Error::duplicate_field(self.name));
+				}
+				value = Some(map.next_value()?);
+			} else {
+				let _ = map.next_value::<serde::de::IgnoredAny>()?;
+			}
+		}
+
+		let subscription = subscription.ok_or_else(|| serde::de::Error::missing_field("subscription"))?;
+		let value = value.ok_or_else(|| serde::de::Error::missing_field(self.name))?;
+		Ok((subscription, value))
+	}
 }
 
 /// Represent the payload of the JSON-RPC response object
